@@ -100,6 +100,7 @@ func c30(r *sim.R) *sim.Violation {
 		corrupted  uint64
 		err        error
 		flows      uint64
+		tlast      int64 // upper bound of a listing
 	}
 	var results []*qres
 	rdone := make(chan struct{})
@@ -111,7 +112,15 @@ func c30(r *sim.R) *sim.Violation {
 			qr := &qres{start: sc.StepCount()}
 			if t.Draw(3) == 0 {
 				qr.kind = "listing"
-				md, err := dbcheck.Listing(rdb, "eth0", 1, 4102444800)
+				// the upper bound: far in the future, or on / between the blocks being written (the
+				// listing then subtracts the blocks after the bound from the day's totals, which it
+				// reads at another moment than the totals themselves)
+				qr.tlast = 4102444800
+				if k := t.Draw(4); k > 0 {
+					rec := recs[t.Draw(len(recs))]
+					qr.tlast = rec.blk.TS + []int64{0, 0, 150, -1}[k]
+				}
+				md, err := dbcheck.Listing(rdb, "eth0", 1, qr.tlast)
 				qr.err = err
 				if md != nil {
 					qr.flows = md.Traffic.NumV4Entries + md.Traffic.NumV6Entries
@@ -223,6 +232,9 @@ func c30(r *sim.R) *sim.Violation {
 				b := days[d]
 				for i, rec := range b.blocks {
 					n := rec.blk.Traffic.V4 + rec.blk.Traffic.V6
+					if rec.blk.TS > qr.tlast {
+						continue
+					}
 					if i < b.lo {
 						lo += n
 					}
@@ -232,7 +244,7 @@ func c30(r *sim.R) *sim.Violation {
 				}
 			}
 			if qr.flows < lo || qr.flows > hi {
-				if v := r.Report(&sim.Violation{Clause: "listing-inconsistent", Signature: sig, Detail: fmt.Sprintf("listing during steps [%d,%d] reports %d flows; blocks completed before it hold %d, blocks started before its end hold %d", qr.start, qr.end, qr.flows, lo, hi)}); v != nil {
+				if v := r.Report(&sim.Violation{Clause: "listing-inconsistent", Signature: sig, Detail: fmt.Sprintf("listing up to %d during steps [%d,%d] reports %d flows; blocks in range completed before it hold %d, blocks in range started before its end hold %d", qr.tlast, qr.start, qr.end, qr.flows, lo, hi)}); v != nil {
 					return v
 				}
 			}
